@@ -3,9 +3,17 @@
 //! Request lines
 //!   `re <attrs>`                  attribute section (hex) of an UPDATE without NLRI; the PDU around
 //!                                 it is built here (marker, length, type 2, no withdrawn routes)
+//!   `re2 <attrs>` / `re2w <attrs>` the same in a two-octet session (`SessionConfig::legacy()`); `re2w` =
+//!                                 the section holds an attribute whose encoding depends on the AS number
+//!                                 width (an AS_PATH that is well formed two octets wide and has an AS
+//!                                 number, or a six-octet AGGREGATOR), `re2` = it holds none; a line with
+//!                                 the wrong one of the two is `bad-op`
 //!   `nl <fam> <wd> <ann> <attrs>` an UPDATE carrying the NLRI octets `wd` / `ann` of one family
-//!                                 (c4 = conventional sections; v4u v4m v6u v6m v6fs = MP attributes,
-//!                                 next hop octets 0x01) plus the attributes `attrs` (no 14 / 15)
+//!                                 (c4 = conventional sections; v4u v4m v4mpls v4vpn v4rt v4fs v6u v6m
+//!                                 v6mpls v6vpn v6fs vpls evpn = MP attributes, next hop octets 0x01;
+//!                                 suffix `a` = the session has ADD-PATH (rx + tx) for the family, the
+//!                                 NLRI carry path ids and the builder is of the ADD-PATH NLRI type)
+//!                                 plus the attributes `attrs` (no 14 / 15)
 //! Replies
 //!   re: `rej` | `ok D<hex>#<n> M<hex>#<n> B<pdu hex>`: the section re-encoded by
 //!       D  every `path_attributes()` item -> `to_owned()` -> `PathAttribute::compose`, n = sum of
@@ -24,9 +32,8 @@ use crate::common::*;
 use bytes::Bytes;
 use routecore::bgp::message::update_builder::UpdateBuilder;
 use routecore::bgp::message::{SessionConfig, UpdateMessage};
-use routecore::bgp::nlri::afisafi::{
-    Ipv4MulticastNlri, Ipv4UnicastNlri, Ipv6FlowSpecNlri, Ipv6MulticastNlri, Ipv6UnicastNlri,
-};
+use crate::props::c05::{self, ref_enc, ref_wf, Shape, Val};
+use routecore::bgp::nlri::afisafi::*;
 use routecore::bgp::path_attributes::PaMap;
 
 pub struct C07;
@@ -63,24 +70,44 @@ fn mp_attr(code: u8, v: &[u8]) -> Vec<u8> {
 }
 
 #[derive(Clone, Copy, PartialEq, Debug)]
-enum Fam { C4, V4u, V4m, V6u, V6m, V6fs }
+enum Base { V4u, V4m, V4mpls, V4vpn, V4rt, V4fs, V6u, V6m, V6mpls, V6vpn, V6fs, Vpls, Evpn }
+use Base::*;
+
+/// `conv`: IPv4 unicast in the conventional sections; `ap`: ADD-PATH session for the family
+#[derive(Clone, Copy, PartialEq, Debug)]
+struct Fam { b: Base, ap: bool, conv: bool }
+
+/// (token, family, (afi, safi), octets of the family's default next hop, c05 variant name)
+const BASES: [(&str, Base, (u16, u8), usize, &str); 13] = [
+    ("v4u", V4u, (1, 1), 4, "Ipv4Unicast"), ("v4m", V4m, (1, 2), 4, "Ipv4Multicast"), ("v4mpls", V4mpls, (1, 4), 4, "Ipv4MplsUnicast"),
+    ("v4vpn", V4vpn, (1, 128), 12, "Ipv4MplsVpnUnicast"), ("v4rt", V4rt, (1, 132), 4, "Ipv4RouteTarget"), ("v4fs", V4fs, (1, 133), 0, "Ipv4FlowSpec"),
+    ("v6u", V6u, (2, 1), 16, "Ipv6Unicast"), ("v6m", V6m, (2, 2), 16, "Ipv6Multicast"), ("v6mpls", V6mpls, (2, 4), 16, "Ipv6MplsUnicast"),
+    ("v6vpn", V6vpn, (2, 128), 24, "Ipv6MplsVpnUnicast"), ("v6fs", V6fs, (2, 133), 0, "Ipv6FlowSpec"),
+    ("vpls", Vpls, (25, 65), 4, "L2VpnVpls"), ("evpn", Evpn, (25, 70), 4, "L2VpnEvpn")];
 
 fn fam_of(s: &str) -> Option<Fam> {
-    Some(match s { "c4" => Fam::C4, "v4u" => Fam::V4u, "v4m" => Fam::V4m, "v6u" => Fam::V6u, "v6m" => Fam::V6m,
-        "v6fs" => Fam::V6fs, _ => return None })
+    if s == "c4" { return Some(Fam { b: V4u, ap: false, conv: true }); }
+    if s == "c4a" { return Some(Fam { b: V4u, ap: true, conv: true }); }
+    if let Some(x) = BASES.iter().find(|x| x.0 == s) { return Some(Fam { b: x.1, ap: false, conv: false }); }
+    let t = s.strip_suffix('a')?;
+    BASES.iter().find(|x| x.0 == t).map(|x| Fam { b: x.1, ap: true, conv: false })
 }
-fn fam_name(f: Fam) -> &'static str {
-    match f { Fam::C4 => "c4", Fam::V4u => "v4u", Fam::V4m => "v4m", Fam::V6u => "v6u", Fam::V6m => "v6m", Fam::V6fs => "v6fs" }
+fn base_row(b: Base) -> &'static (&'static str, Base, (u16, u8), usize, &'static str) { BASES.iter().find(|x| x.1 == b).unwrap() }
+fn fam_name(f: Fam) -> String {
+    let n = if f.conv { "c4" } else { base_row(f.b).0 };
+    if f.ap { format!("{}a", n) } else { n.to_string() }
 }
 /// (afi, safi, length of the family's default next hop)
-fn fam_info(f: Fam) -> (u16, u8, usize) {
-    match f { Fam::C4 | Fam::V4u => (1, 1, 4), Fam::V4m => (1, 2, 4), Fam::V6u => (2, 1, 16), Fam::V6m => (2, 2, 16),
-        Fam::V6fs => (2, 133, 0) }
+fn fam_info(f: Fam) -> (u16, u8, usize) { let r = base_row(f.b); (r.2 .0, r.2 .1, r.3) }
+/// the c05 description of the NLRI type (shape, address length, path id)
+fn fam_var(f: Fam) -> &'static c05::Var {
+    let n = base_row(f.b).4;
+    c05::variant(&if f.ap { format!("{}Addpath", n) } else { n.to_string() }).unwrap()
 }
 
 /// the attribute section and the PDU of an `nl` request
 fn nl_pdu(f: Fam, wd: &[u8], ann: &[u8], attrs: &[u8]) -> Vec<u8> {
-    if f == Fam::C4 { return mk_pdu(wd, attrs, ann); }
+    if f.conv { return mk_pdu(wd, attrs, ann); }
     let (afi, safi, nh) = fam_info(f);
     let mut sec = Vec::new();
     if !ann.is_empty() {
@@ -155,8 +182,9 @@ fn ref_flags(code: u8) -> Option<u8> {
 #[derive(PartialEq, Debug, Clone)]
 enum RHop { Asn([u8; 4]), Seg(u8, Vec<u8>) }
 
-/// four-octet AS path value as hops: the ASNs of a non-empty AS_SEQUENCE, any other segment whole
-fn ref_hops(v: &[u8]) -> Option<Vec<RHop>> {
+/// AS path value (`w` octets per AS number) as hops: the ASNs of a non-empty AS_SEQUENCE (as
+/// four-octet numbers), any other segment whole (its AS numbers widened to four octets)
+fn ref_hops_w(v: &[u8], w: usize) -> Option<Vec<RHop>> {
     let mut i = 0;
     let mut out = Vec::new();
     while i < v.len() {
@@ -164,27 +192,32 @@ fn ref_hops(v: &[u8]) -> Option<Vec<RHop>> {
         let t = v[i];
         let n = v[i + 1] as usize;
         if !(1..=4).contains(&t) { return None; }
-        if i + 2 + 4 * n > v.len() { return None; }
-        let body = &v[i + 2..i + 2 + 4 * n];
+        if i + 2 + w * n > v.len() { return None; }
+        let body = &v[i + 2..i + 2 + w * n];
+        let wide: Vec<[u8; 4]> = body.chunks(w).map(|c| if w == 4 { [c[0], c[1], c[2], c[3]] } else { [0, 0, c[0], c[1]] }).collect();
         if t == 2 && n > 0 {
-            for c in body.chunks(4) { out.push(RHop::Asn([c[0], c[1], c[2], c[3]])); }
+            for c in wide { out.push(RHop::Asn(c)); }
         } else {
-            out.push(RHop::Seg(t, body.to_vec()));
+            out.push(RHop::Seg(t, wide.concat()));
         }
-        i += 2 + 4 * n;
+        i += 2 + w * n;
     }
     Some(out)
 }
+fn ref_hops(v: &[u8]) -> Option<Vec<RHop>> { ref_hops_w(v, 4) }
 
-/// the per-type length rules (four-octet session)
-fn ref_valid(code: u8, v: &[u8]) -> bool {
+/// the per-type length rules; `four` = the session carries four-octet AS numbers (RFC 6793:
+/// AS_PATH and AGGREGATOR change width, AS4_PATH and AS4_AGGREGATOR never do)
+fn ref_valid_w(code: u8, v: &[u8], four: bool) -> bool {
     let n = v.len();
     match code {
         1 => n == 1,
-        2 | 17 => ref_hops(v).is_some(),
+        2 => ref_hops_w(v, if four { 4 } else { 2 }).is_some(),
+        17 => ref_hops(v).is_some(),
         3 | 4 | 5 | 9 | 20 | 35 => n == 4,
         6 => n == 0,
-        7 | 18 => n == 8,
+        7 => n == if four { 8 } else { 6 },
+        18 => n == 8,
         8 | 10 => n % 4 == 0,
         16 => n % 8 == 0,
         21 => n == 5,
@@ -195,29 +228,70 @@ fn ref_valid(code: u8, v: &[u8]) -> bool {
         _ => false,
     }
 }
+fn ref_valid(code: u8, v: &[u8]) -> bool { ref_valid_w(code, v, true) }
+
+/// does the encoding of this attribute depend on the AS number width of the session?
+fn width_dependent(t: &Tlv) -> bool {
+    (t.1 == 2 && ref_hops_w(&t.2, 2).map_or(false, |h| h.iter().any(|x| match x { RHop::Asn(_) => true, RHop::Seg(_, b) => !b.is_empty() })))
+        || (t.1 == 7 && t.2.len() == 6)
+}
+/// the bad-op rule of `re2` / `re2w`: over the walk that stops at the first framing error
+fn has_width_dependent(sec: &[u8]) -> bool {
+    let mut i = 0;
+    while i + 3 <= sec.len() {
+        let fl = sec[i];
+        let (len, h) = if fl & 0x10 != 0 {
+            if i + 4 > sec.len() { return false; }
+            (u16::from_be_bytes([sec[i + 2], sec[i + 3]]) as usize, 4)
+        } else { (sec[i + 2] as usize, 3) };
+        if i + h + len > sec.len() { return false; }
+        if width_dependent(&(fl, sec[i + 1], sec[i + h..i + h + len].to_vec())) { return true; }
+        i += h + len;
+    }
+    false
+}
 
 #[derive(Clone, Copy, PartialEq, Debug)]
 enum Class { Typed, Invalid, Unknown }
 
-fn classify(t: &Tlv) -> Class {
+fn classify_w(t: &Tlv, four: bool) -> Class {
     match ref_flags(t.1) {
-        Some(_) => if ref_valid(t.1, &t.2) { Class::Typed } else { Class::Invalid },
+        Some(_) => if ref_valid_w(t.1, &t.2, four) { Class::Typed } else { Class::Invalid },
         None => Class::Unknown,
     }
 }
 
-/// what the property prescribes for the re-encoding of one received attribute
-fn judge_attr(src: &Tlv, got: &Tlv) -> Result<(), String> {
+/// how the output is read back
+#[derive(Clone, Copy, PartialEq)]
+enum Read {
+    /// under the session the UPDATE was received in: what the property asks
+    Same,
+    /// in a two-octet session, the width-dependent attributes read four octets wide (every other
+    /// clause as under `Same`): what remains to be checked next to known finding K9
+    Widened,
+}
+
+/// what the property prescribes for the re-encoding of one received attribute (`four`: the session)
+fn judge_attr(src: &Tlv, got: &Tlv, four: bool, read: Read) -> Result<(), String> {
     let (sfl, code, sval) = src;
     let (gfl, gcode, gval) = got;
     if gcode != code { return Err(format!("type code {} became {}", code, gcode)); }
     let ext = if gval.len() > 255 { 0x10u8 } else { 0 };
-    match classify(src) {
+    match classify_w(src, four) {
         Class::Typed => {
             let want = ref_flags(*code).unwrap() | ext;
             if *gfl != want { return Err(format!("attribute {}: flags {:02x}, canonical {:02x}", code, gfl, want)); }
+            let sw = if four || *code == 17 { 4 } else { 2 };
             if *code == 2 || *code == 17 {
-                if ref_hops(gval) != ref_hops(sval) { return Err(format!("attribute {}: AS path hops differ", code)); }
+                let gw = if read == Read::Widened { 4 } else { sw };
+                if ref_hops_w(gval, gw) != ref_hops_w(sval, sw) {
+                    return Err(if gw == sw { format!("attribute {}: AS path hops differ", code) }
+                        else { format!("attribute {}: AS path hops differ also when read four octets wide", code) });
+                }
+            } else if *code == 7 && !four && read == Read::Widened {
+                let mut w = vec![0u8, 0];
+                w.extend_from_slice(sval);
+                if *gval != w { return Err(format!("attribute 7: {} is not {} with a four-octet AS number", hex(gval), hex(sval))); }
             } else if gval != sval {
                 return Err(format!("attribute {}: value {} became {}", code, hex(sval), hex(gval)));
             }
@@ -241,15 +315,16 @@ fn judge_attr(src: &Tlv, got: &Tlv) -> Result<(), String> {
     Ok(())
 }
 
-fn judge_list(what: &str, want: &[Tlv], out: &[u8]) -> Result<(), String> {
+fn judge_list_w(what: &str, want: &[Tlv], out: &[u8], four: bool, read: Read) -> Result<(), String> {
     let got = walk(out).ok_or(format!("{}: output is not a sequence of complete attributes", what))?;
     if got.len() != want.len() {
         return Err(format!("{}: {} attributes written, {} expected ({:?} vs {:?})", what, got.len(), want.len(),
             got.iter().map(|t| t.1).collect::<Vec<_>>(), want.iter().map(|t| t.1).collect::<Vec<_>>()));
     }
-    for (s, g) in want.iter().zip(got.iter()) { judge_attr(s, g).map_err(|e| format!("{}: {}", what, e))?; }
+    for (s, g) in want.iter().zip(got.iter()) { judge_attr(s, g, four, read).map_err(|e| format!("{}: {}", what, e))?; }
     Ok(())
 }
+fn judge_list(what: &str, want: &[Tlv], out: &[u8]) -> Result<(), String> { judge_list_w(what, want, out, true, Read::Same) }
 
 /// what the attribute map keeps of a section: no MP_REACH / MP_UNREACH, the first of repeated
 /// attributes (RFC 7606 3.g), ascending type code
@@ -263,29 +338,116 @@ fn map_view(src: &[Tlv]) -> Vec<Tlv> {
     m
 }
 
-/// NLRI items of one family up to the first that is not well formed: (raw item, meaning)
+/// One NLRI of the type `var` read off the head of `b` (RFC 4271 4.3 prefixes, 8277 labels, 4364
+/// route distinguisher, 4684, 8955 4 length rule, 4761 3.2.2, 7432 7, 7911 path id): the value and
+/// the octets consumed. The VPLS length field is not interpreted (routecore does not either).
+fn ref_read(var: &c05::Var, b: &[u8]) -> Option<(Val, usize)> {
+    let mut v = Val::default();
+    let mut i = 0usize;
+    if var.ap {
+        if b.len() < 4 { return None; }
+        v.pid = Some(u32::from_be_bytes([b[0], b[1], b[2], b[3]]) as u64);
+        i = 4;
+    }
+    let alen = if var.v6 { 16 } else { 4 };
+    // a prefix of `bits` bits at offset i
+    let pfx = |v: &mut Val, i: &mut usize, bits: usize| -> Option<()> {
+        if bits > 8 * alen { return None; }
+        let nb = (bits + 7) / 8;
+        if b.len() < *i + nb { return None; }
+        let mut a = vec![0u8; alen];
+        a[..nb].copy_from_slice(&b[*i..*i + nb]);
+        v.plen = bits as u64;
+        v.addr = a;
+        *i += nb;
+        Some(())
+    };
+    match var.shape {
+        Shape::Pfx => {
+            if b.len() < i + 1 { return None; }
+            let bits = b[i] as usize; i += 1;
+            pfx(&mut v, &mut i, bits)?;
+        }
+        Shape::Mpls | Shape::Vpn => {
+            if b.len() < i + 1 { return None; }
+            let bits = b[i] as usize; i += 1;
+            loop {
+                if b.len() < i + 3 { return None; }
+                let g = [b[i], b[i + 1], b[i + 2]];
+                v.labels.extend_from_slice(&g);
+                i += 3;
+                if g[2] & 1 == 1 || g == [0x80, 0, 0] || g == [0, 0, 0] { break; }
+            }
+            let mut used = 8 * v.labels.len();
+            if var.shape == Shape::Vpn { used += 64; }
+            if used > bits { return None; }
+            if var.shape == Shape::Vpn {
+                if b.len() < i + 8 { return None; }
+                v.rd = b[i..i + 8].to_vec();
+                i += 8;
+            }
+            pfx(&mut v, &mut i, bits - used)?;
+        }
+        Shape::Rt => {
+            if b.len() < i + 1 { return None; }
+            let nb = (b[i] as usize + 7) / 8; i += 1;
+            if b.len() < i + nb { return None; }
+            v.raw = b[i..i + nb].to_vec();
+            i += nb;
+        }
+        Shape::Fs => {
+            if b.len() < i + 1 { return None; }
+            let l1 = b[i] as usize; i += 1;
+            let n = if l1 >= 0xf0 {
+                if b.len() < i + 1 { return None; }
+                let n = ((l1 << 8) | b[i] as usize) & 0x0fff; i += 1; n
+            } else { l1 };
+            if b.len() < i + n { return None; }
+            v.afi = if var.v6 { 2 } else { 1 };
+            v.raw = b[i..i + n].to_vec();
+            i += n;
+        }
+        Shape::Vpls => {
+            if b.len() < i + 19 { return None; }
+            let x = &b[i + 2..i + 19];
+            v.rd = x[..8].to_vec();
+            v.ve = [u16::from_be_bytes([x[8], x[9]]) as u64, u16::from_be_bytes([x[10], x[11]]) as u64, u16::from_be_bytes([x[12], x[13]]) as u64];
+            v.lb = ((x[14] as u64) << 16) | ((x[15] as u64) << 8) | x[16] as u64;
+            i += 19;
+        }
+        Shape::Evpn => {
+            if b.len() < i + 2 { return None; }
+            v.t = b[i] as u64;
+            let n = b[i + 1] as usize; i += 2;
+            if b.len() < i + n { return None; }
+            v.raw = b[i..i + n].to_vec();
+            i += n;
+        }
+    }
+    Some((v, i))
+}
+
+/// NLRI items of one family up to the first that is not well formed, each as the canonical
+/// reference encoding of its value (c05 `ref_enc`): two encodings of one NLRI (FlowSpec length in
+/// one or two octets, a route target length that is not a multiple of 8, any VPLS length field)
+/// compare equal; `true` = the octets end with the last item
 fn ref_items(f: Fam, mut b: &[u8]) -> (Vec<Vec<u8>>, bool) {
+    let var = fam_var(f);
     let mut out = Vec::new();
-    let maxbits = match f { Fam::C4 | Fam::V4u | Fam::V4m => 32usize, _ => 128 };
     while !b.is_empty() {
-        if f == Fam::V6fs {
-            let l1 = b[0] as usize;
-            let (len, h) = if l1 >= 0xf0 {
-                if b.len() < 2 { return (out, false); }
-                ((((l1 << 8) | b[1] as usize) & 0x0fff), 2)
-            } else { (l1, 1) };
-            if b.len() < h + len { return (out, false); }
-            // meaning of a FlowSpec NLRI: its component octets
-            out.push(b[h..h + len].to_vec());
-            b = &b[h + len..];
-        } else {
-            let bits = b[0] as usize;
-            if bits > maxbits { return (out, false); }
-            let nb = (bits + 7) / 8;
-            if b.len() < 1 + nb { return (out, false); }
-            if bits % 8 != 0 && b[nb] & (0xffu8 >> (bits % 8)) != 0 { return (out, false); }
-            out.push(b[..1 + nb].to_vec());
-            b = &b[1 + nb..];
+        match ref_read(var, b) {
+            // a route target read from a bit count of 249..=255 has 32 octets; 8 * 32 does not fit the
+            // length octet, the closest (and what reads back as the same 32 octets) is 255
+            Some((v, n)) if var.shape == Shape::Rt && v.raw.len() == 32 => {
+                let mut e = Vec::new();
+                if let Some(p) = v.pid { e.extend_from_slice(&(p as u32).to_be_bytes()); }
+                e.push(0xff);
+                e.extend_from_slice(&v.raw);
+                out.push(e);
+                b = &b[n..];
+            }
+            Some((v, n)) if ref_wf(var.shape, var.v6, &v) => { out.push(ref_enc(var.shape, &v)); b = &b[n..]; }
+            _ => return (out, false),
         }
     }
     (out, true)
@@ -295,10 +457,13 @@ fn ref_items(f: Fam, mut b: &[u8]) -> (Vec<Vec<u8>>, bool) {
 // the real code
 // ---------------------------------------------------------------------------
 
-fn exec_re(attrs: &[u8]) -> String {
+/// `two`: None = four-octet session; Some(w) = two-octet session, `w` = the line claims a
+/// width-dependent attribute
+fn exec_re(attrs: &[u8], two: Option<bool>) -> String {
     let raw = mk_pdu(&[], attrs, &[]);
     if raw.len() > MAX_PDU { return "bad-op".into(); }
-    let sc = SessionConfig::modern();
+    if let Some(w) = two { if has_width_dependent(attrs) != w { return "bad-op".into(); } }
+    let sc = if two.is_some() { SessionConfig::legacy() } else { SessionConfig::modern() };
     let pdu = match UpdateMessage::from_octets(raw, &sc) { Ok(p) => p, Err(_) => return "rej".into() };
     // route 1
     let d = (|| -> Option<(Vec<u8>, usize)> {
@@ -370,14 +535,36 @@ fn exec_nl(f: Fam, wd: &[u8], ann: &[u8], attrs: &[u8]) -> String {
     if has_mp(attrs) { return "bad-op".into(); }
     let raw = nl_pdu(f, wd, ann, attrs);
     if raw.len() > MAX_PDU { return "bad-op".into(); }
-    let sc = SessionConfig::modern();
+    let mut sc = SessionConfig::modern();
+    if f.ap { let (a, s, _) = fam_info(f); sc.add_addpath_rxtx(AfiSafiType::from((a, s))); }
     let src = match UpdateMessage::from_octets(Bytes::from(raw), &sc) { Ok(p) => p, Err(_) => return "rej".into() };
-    let built: Result<Vec<u8>, ()> = match f {
-        Fam::C4 | Fam::V4u => readd!(Ipv4UnicastNlri, &src, &sc),
-        Fam::V4m => readd!(Ipv4MulticastNlri, &src, &sc),
-        Fam::V6u => readd!(Ipv6UnicastNlri, &src, &sc),
-        Fam::V6m => readd!(Ipv6MulticastNlri, &src, &sc),
-        Fam::V6fs => readd!(Ipv6FlowSpecNlri<Bytes>, &src, &sc),
+    let built: Result<Vec<u8>, ()> = match (f.b, f.ap) {
+        (V4u, false) => readd!(Ipv4UnicastNlri, &src, &sc),
+        (V4u, true) => readd!(Ipv4UnicastAddpathNlri, &src, &sc),
+        (V4m, false) => readd!(Ipv4MulticastNlri, &src, &sc),
+        (V4m, true) => readd!(Ipv4MulticastAddpathNlri, &src, &sc),
+        (V4mpls, false) => readd!(Ipv4MplsUnicastNlri<Bytes>, &src, &sc),
+        (V4mpls, true) => readd!(Ipv4MplsUnicastAddpathNlri<Bytes>, &src, &sc),
+        (V4vpn, false) => readd!(Ipv4MplsVpnUnicastNlri<Bytes>, &src, &sc),
+        (V4vpn, true) => readd!(Ipv4MplsVpnUnicastAddpathNlri<Bytes>, &src, &sc),
+        (V4rt, false) => readd!(Ipv4RouteTargetNlri<Bytes>, &src, &sc),
+        (V4rt, true) => readd!(Ipv4RouteTargetAddpathNlri<Bytes>, &src, &sc),
+        (V4fs, false) => readd!(Ipv4FlowSpecNlri<Bytes>, &src, &sc),
+        (V4fs, true) => readd!(Ipv4FlowSpecAddpathNlri<Bytes>, &src, &sc),
+        (V6u, false) => readd!(Ipv6UnicastNlri, &src, &sc),
+        (V6u, true) => readd!(Ipv6UnicastAddpathNlri, &src, &sc),
+        (V6m, false) => readd!(Ipv6MulticastNlri, &src, &sc),
+        (V6m, true) => readd!(Ipv6MulticastAddpathNlri, &src, &sc),
+        (V6mpls, false) => readd!(Ipv6MplsUnicastNlri<Bytes>, &src, &sc),
+        (V6mpls, true) => readd!(Ipv6MplsUnicastAddpathNlri<Bytes>, &src, &sc),
+        (V6vpn, false) => readd!(Ipv6MplsVpnUnicastNlri<Bytes>, &src, &sc),
+        (V6vpn, true) => readd!(Ipv6MplsVpnUnicastAddpathNlri<Bytes>, &src, &sc),
+        (V6fs, false) => readd!(Ipv6FlowSpecNlri<Bytes>, &src, &sc),
+        (V6fs, true) => readd!(Ipv6FlowSpecAddpathNlri<Bytes>, &src, &sc),
+        (Vpls, false) => readd!(L2VpnVplsNlri, &src, &sc),
+        (Vpls, true) => readd!(L2VpnVplsAddpathNlri, &src, &sc),
+        (Evpn, false) => readd!(L2VpnEvpnNlri<Bytes>, &src, &sc),
+        (Evpn, true) => readd!(L2VpnEvpnAddpathNlri<Bytes>, &src, &sc),
     };
     match built {
         Err(()) => "err".into(),
@@ -397,7 +584,7 @@ fn field<'a>(tok: &'a str, tag: &str) -> Result<&'a str, String> {
 }
 fn trunc(s: &str) -> String { if s.len() > 60 { format!("{}..", &s[..60]) } else { s.to_string() } }
 
-fn oracle_re(attrs: &[u8], reply: &str) -> Result<(), String> {
+fn oracle_re(attrs: &[u8], reply: &str, four: bool) -> Result<(), String> {
     if reply == "bad-op" { return Ok(()); }
     let src = match walk(attrs) { Some(s) => s, None => return if reply == "rej" { Ok(()) } else { Err("mis-framed section accepted".into()) } };
     if reply == "rej" { return Ok(()); }     // not an accepted UPDATE: outside the property
@@ -405,26 +592,31 @@ fn oracle_re(attrs: &[u8], reply: &str) -> Result<(), String> {
     let toks: Vec<&str> = reply.split(' ').collect();
     if toks.len() != 4 || toks[0] != "ok" { return Err(format!("unexpected reply {}", trunc(reply))); }
     for t in &toks[1..] { if t.ends_with("err") { return Err(format!("route {} did not succeed on an accepted UPDATE", &t[..1])); } }
-    // route 1: every attribute, in order
     let (dh, dn) = field(toks[1], "D")?.split_once('#').ok_or("D without #")?;
     let d = unhex(dh).ok_or("D hex")?;
-    judge_list("direct", &src, &d)?;
-    if dn.parse::<usize>().ok() != Some(d.len()) { return Err(format!("direct: compose_len sum {} but {} octets written", dn, d.len())); }
-    // route 2: the attribute map
     let mv = map_view(&src);
     let (mh, mn) = field(toks[2], "M")?.split_once('#').ok_or("M without #")?;
     let m = unhex(mh).ok_or("M hex")?;
-    judge_list("map", &mv, &m)?;
-    if mn.parse::<usize>().ok() != Some(m.len()) { return Err(format!("map: bytes_len {} but {} octets written", mn, m.len())); }
-    // route 3: the builder's PDU
     let b = unhex(field(toks[3], "B")?).ok_or("B hex")?;
-    if b.len() < 23 || b[..16].iter().any(|x| *x != 0xff) || b[18] != 2 { return Err("builder: not an UPDATE header".into()); }
-    if u16::from_be_bytes([b[16], b[17]]) as usize != b.len() { return Err("builder: header length differs from the octets written".into()); }
-    if b.len() > MAX_PDU { return Err("builder: PDU over 4096 octets".into()); }
-    if b[19] != 0 || b[20] != 0 { return Err("builder: withdrawn routes in a PDU without NLRI".into()); }
-    if u16::from_be_bytes([b[21], b[22]]) as usize != b.len() - 23 { return Err("builder: attribute length field differs from the octets written".into()); }
-    judge_list("builder", &mv, &b[23..])?;
-    if b[23..] != m[..] { return Err("builder and map routes wrote different octets".into()); }
+    // In a two-octet session first everything but the AS number width (the width-dependent
+    // attributes read four octets wide), then the property as it stands.
+    let passes: &[Read] = if four { &[Read::Same] } else { &[Read::Widened, Read::Same] };
+    for &read in passes {
+        // route 1: every attribute, in order
+        judge_list_w("direct", &src, &d, four, read)?;
+        if dn.parse::<usize>().ok() != Some(d.len()) { return Err(format!("direct: compose_len sum {} but {} octets written", dn, d.len())); }
+        // route 2: the attribute map
+        judge_list_w("map", &mv, &m, four, read)?;
+        if mn.parse::<usize>().ok() != Some(m.len()) { return Err(format!("map: bytes_len {} but {} octets written", mn, m.len())); }
+        // route 3: the builder's PDU
+        if b.len() < 23 || b[..16].iter().any(|x| *x != 0xff) || b[18] != 2 { return Err("builder: not an UPDATE header".into()); }
+        if u16::from_be_bytes([b[16], b[17]]) as usize != b.len() { return Err("builder: header length differs from the octets written".into()); }
+        if b.len() > MAX_PDU { return Err("builder: PDU over 4096 octets".into()); }
+        if b[19] != 0 || b[20] != 0 { return Err("builder: withdrawn routes in a PDU without NLRI".into()); }
+        if u16::from_be_bytes([b[21], b[22]]) as usize != b.len() - 23 { return Err("builder: attribute length field differs from the octets written".into()); }
+        judge_list_w("builder", &mv, &b[23..], four, read)?;
+        if b[23..] != m[..] { return Err("builder and map routes wrote different octets".into()); }
+    }
     Ok(())
 }
 
@@ -441,7 +633,7 @@ fn oracle_nl(f: Fam, wd: &[u8], ann: &[u8], attrs: &[u8], reply: &str) -> Result
     if reply == "err" {
         // only an UPDATE that cannot fit 4096 octets may be refused
         let (_, _, nh) = fam_info(f);
-        let wl: usize = w_items.iter().map(|x| x.len() + 1).sum();
+        let wl: usize = w_items.iter().map(|x| x.len() + 1).sum();   // (+1: a FlowSpec length may take two octets)
         let al: usize = a_items.iter().map(|x| x.len() + 1).sum();
         if 23 + attrs.len() + wl + al + nh + 20 > MAX_PDU { return Ok(()); }
         return Err("the builder refused an UPDATE that fits a PDU".into());
@@ -454,6 +646,7 @@ fn oracle_nl(f: Fam, wd: &[u8], ann: &[u8], attrs: &[u8], reply: &str) -> Result
     let (gw, wclean) = ref_items(f, &w);
     let (ga, aclean) = ref_items(f, &a);
     if !wclean || !aclean { return Err("the NLRI written do not all parse".into()); }
+    if gw.concat() != w || ga.concat() != a { return Err("the NLRI written are not in the canonical encoding of their values".into()); }
     let norm = |items: &Vec<Vec<u8>>| -> Vec<Vec<u8>> {
         // a prefix item is its own meaning; a FlowSpec item is its component octets (ref_items)
         items.clone()
@@ -596,30 +789,28 @@ fn mutate(rng: &mut Rng, mut s: Vec<u8>) -> Vec<u8> {
     s
 }
 
-fn gen_prefix(rng: &mut Rng, maxbits: usize) -> Vec<u8> {
-    let bits = match rng.below(6) { 0 => 0, 1 => maxbits, _ => rng.usize(0, maxbits) };
-    let nb = (bits + 7) / 8;
-    let mut b = rng.bytes(nb);
-    if bits % 8 != 0 { b[nb - 1] &= 0xffu8 << (8 - bits % 8); }
-    let mut v = vec![bits as u8];
-    v.extend(b);
-    v
-}
-
+/// up to `max` well-formed NLRI of the family, mostly in the canonical encoding
 fn gen_nlri(rng: &mut Rng, f: Fam, max: usize) -> Vec<u8> {
-    let mut v = Vec::new();
+    let var = fam_var(f);
+    let mut out = Vec::new();
     for _ in 0..rng.usize(0, max) {
-        match f {
-            Fam::C4 | Fam::V4u | Fam::V4m => v.extend(gen_prefix(rng, 32)),
-            Fam::V6u | Fam::V6m => v.extend(gen_prefix(rng, 128)),
-            Fam::V6fs => {
-                let n = match rng.below(12) { 0 => 0, 1 => 239, 2 => 240, 3 => 300, _ => rng.usize(1, 20) };
-                if n >= 240 || rng.chance(1, 10) { v.extend((0xf000u16 | n as u16).to_be_bytes()); } else { v.push(n as u8); }
-                v.extend(rng.bytes(n));
-            }
+        let mut v = c05::gen_val(rng, var);
+        if var.shape == Shape::Fs && v.raw.len() > 300 && rng.chance(4, 5) {
+            v.raw = if var.v6 { rng.bytes(7) } else { c05::gen_fs_components(rng, 7) };
         }
+        if var.shape == Shape::Evpn && v.raw.len() > 100 && rng.chance(1, 2) { v.raw.truncate(23); }
+        let mut e = ref_enc(var.shape, &v);
+        let k = if var.ap { 4 } else { 0 };
+        // other encodings of the same NLRI
+        match var.shape {
+            Shape::Fs if v.raw.len() < 240 && rng.chance(1, 8) => { let n = v.raw.len(); e.splice(k..k + 1, [0xf0u8, n as u8]); }
+            Shape::Rt if !v.raw.is_empty() && rng.chance(1, 6) => { e[k] -= rng.below(8) as u8; }
+            Shape::Vpls if rng.chance(1, 6) => { e[k] = rng.u8(); e[k + 1] = rng.u8(); }
+            _ => {}
+        }
+        out.extend(e);
     }
-    v
+    out
 }
 
 /// NLRI damage: a cut tail, a length octet that promises too much, a host bit
@@ -632,7 +823,59 @@ fn damage_nlri(rng: &mut Rng, mut v: Vec<u8>) -> Vec<u8> {
     }
 }
 
-const FAMS: [Fam; 6] = [Fam::C4, Fam::V4u, Fam::V4m, Fam::V6u, Fam::V6m, Fam::V6fs];
+fn all_fams() -> Vec<Fam> {
+    let mut v = vec![Fam { b: V4u, ap: false, conv: true }, Fam { b: V4u, ap: true, conv: true }];
+    for x in BASES { v.push(Fam { b: x.1, ap: false, conv: false }); v.push(Fam { b: x.1, ap: true, conv: false }); }
+    v
+}
+
+// ---- two-octet sessions
+
+fn gen_aspath2(rng: &mut Rng) -> Vec<u8> {
+    let mut v = Vec::new();
+    let nseg = match rng.below(10) { 0 => 0, 1..=5 => 1, 6..=8 => 2, _ => 3 };
+    for _ in 0..nseg {
+        let t = match rng.below(8) { 0 => 1, 1 => 3, 2 => 4, _ => 2 };
+        let n = match rng.below(40) { 0 => 0, 1 => 255, 2 => 130, _ => rng.usize(1, 4) };
+        v.push(t);
+        v.push(n as u8);
+        for _ in 0..n { v.extend(match rng.below(6) { 0 => 23456u16, 1 => 0, 2 => 65535, _ => rng.u16() }.to_be_bytes()); }
+    }
+    v
+}
+
+/// a typed attribute as a two-octet speaker sends it
+fn gen_typed2(rng: &mut Rng, code: u8) -> Vec<u8> {
+    let val = match code { 2 => gen_aspath2(rng), 7 => rng.bytes(6), _ => gen_val(rng, code) };
+    let fl = if rng.chance(1, 8) { *rng.pick(&[0x40u8, 0x80, 0xC0, 0xE0, 0x60, 0x00]) } else { ref_flags(code).unwrap() };
+    wire_attr(fl, code, &val, rng.chance(1, 10))
+}
+
+/// a section of a two-octet session: (`re2w` section, the same without its width-dependent attributes)
+fn gen_section2(rng: &mut Rng) -> (Vec<u8>, Vec<u8>) {
+    let mut parts: Vec<Vec<u8>> = Vec::new();
+    let n = match rng.below(10) { 0 => 1, _ => rng.usize(2, 7) };
+    for _ in 0..n {
+        let a = match rng.below(20) {
+            0..=3 => gen_typed2(rng, 2),
+            4..=5 => gen_typed2(rng, 7),
+            6..=7 => gen_typed2(rng, 17),
+            8 => gen_typed2(rng, 18),
+            // what a four-octet speaker would send: malformed here
+            9 => { let c = *rng.pick(&[2u8, 7]); gen_typed(rng, c) }
+            10..=14 => { let c = *rng.pick(&TYPED); gen_typed2(rng, c) }
+            15..=16 => gen_unknown(rng),
+            17..=18 => gen_invalid(rng),
+            _ => { if parts.is_empty() { gen_typed2(rng, 2) } else { rng.pick(&parts).clone() } }
+        };
+        if parts.iter().map(|x| x.len()).sum::<usize>() + a.len() < 3900 { parts.push(a); }
+    }
+    let all = parts.concat();
+    let rest: Vec<u8> = parts.iter().filter(|p| walk(p).map_or(true, |w| !w.iter().any(width_dependent))).flatten().copied().collect();
+    (all, rest)
+}
+
+fn re2_line(sec: &[u8]) -> String { format!("{} {}", if has_width_dependent(sec) { "re2w" } else { "re2" }, hex(sec)) }
 
 impl Prop for C07 {
     fn gen(&self, rng: &mut Rng, tier: Tier) -> Vec<String> {
@@ -673,14 +916,15 @@ impl Prop for C07 {
             let s = gen_section(rng);
             lines.push(re(&if i % 4 == 3 { mutate(rng, s) } else { s }));
         }
-        // 5. NLRI re-added
-        let n_nl = if tier == Tier::Quick { 1200 } else { 100_000 };
+        // 5. NLRI re-added: 13 families + the conventional sections, each without and with ADD-PATH
+        let fams = all_fams();
+        let n_nl = if tier == Tier::Quick { 1960 } else { 150_000 };
         for i in 0..n_nl {
-            let f = FAMS[i % FAMS.len()];
+            let f = fams[i % fams.len()];
             let mut wd = if rng.chance(1, 2) { gen_nlri(rng, f, 6) } else { vec![] };
             let mut ann = if rng.chance(3, 4) { gen_nlri(rng, f, 8) } else { vec![] };
-            if f != Fam::C4 && rng.chance(1, 5) { if rng.bool() { ann = damage_nlri(rng, ann); } else { wd = damage_nlri(rng, wd); } }
-            if f == Fam::C4 && rng.chance(1, 12) { ann = damage_nlri(rng, ann); }
+            if !f.conv && rng.chance(1, 5) { if rng.bool() { ann = damage_nlri(rng, ann); } else { wd = damage_nlri(rng, wd); } }
+            if f.conv && rng.chance(1, 12) { ann = damage_nlri(rng, ann); }
             let mut parts: Vec<u8> = Vec::new();
             for _ in 0..rng.usize(0, 4) {
                 let a = match rng.below(6) { 0..=3 => { let c = *rng.pick(&TYPED); gen_typed(rng, c) } 4 => gen_unknown(rng), _ => gen_invalid(rng) };
@@ -688,13 +932,42 @@ impl Prop for C07 {
             }
             lines.push(format!("nl {} {} {} {}", fam_name(f), hex(&wd), hex(&ann), hex(&parts)));
         }
+        // 6. two-octet sessions: every typed kind alone, AS paths / AGGREGATOR of both widths, sections
+        for &c in &TYPED {
+            for _ in 0..3 { lines.push(re2_line(&gen_typed2(rng, c))); }
+            lines.push(re2_line(&gen_typed(rng, c)));
+        }
+        for n in [0usize, 1, 2, 127, 128, 255] {
+            for t in 1..=4u8 {
+                let mut v = vec![t, n as u8];
+                for _ in 0..n { v.extend(rng.u16().to_be_bytes()); }
+                lines.push(re2_line(&wire_attr(0x40, 2, &v, false)));
+                let mut s = wire_attr(0x40, 1, &[0], false);
+                s.extend(wire_attr(0x40, 2, &v, n > 100));
+                s.extend(wire_attr(0xC0, 17, &{ let mut w = vec![t, n.min(60) as u8]; for _ in 0..n.min(60) { w.extend(rng.u32().to_be_bytes()); } w }, false));
+                s.extend(wire_attr(0xC0, 7, &rng.bytes(6), false));
+                s.extend(wire_attr(0xC0, 18, &rng.bytes(8), false));
+                lines.push(re2_line(&s));
+            }
+        }
+        let n_re2 = if tier == Tier::Quick { 450 } else { 40_000 };
+        for i in 0..n_re2 {
+            let (all, rest) = gen_section2(rng);
+            let all = if i % 5 == 4 { mutate(rng, all) } else { all };
+            lines.push(re2_line(&all));
+            // the sibling without the width-dependent attributes: every other clause is checked there
+            // without known finding K9 in the way
+            if rest != all { lines.push(re2_line(&rest)); }
+        }
         lines
     }
 
     fn exec(&self, line: &str) -> String {
         let t: Vec<&str> = line.split(' ').collect();
         match t.as_slice() {
-            ["re", a] => match strict_unhex(a) { Some(a) => exec_re(&a), None => "bad-op".into() },
+            ["re", a] => match strict_unhex(a) { Some(a) => exec_re(&a, None), None => "bad-op".into() },
+            ["re2", a] => match strict_unhex(a) { Some(a) => exec_re(&a, Some(false)), None => "bad-op".into() },
+            ["re2w", a] => match strict_unhex(a) { Some(a) => exec_re(&a, Some(true)), None => "bad-op".into() },
             ["nl", f, w, a, at] => match (fam_of(f), strict_unhex(w), strict_unhex(a), strict_unhex(at)) {
                 (Some(f), Some(w), Some(a), Some(at)) => exec_nl(f, &w, &a, &at),
                 _ => "bad-op".into(),
@@ -706,7 +979,8 @@ impl Prop for C07 {
     fn oracle(&self, line: &str, reply: &str) -> Result<(), String> {
         let t: Vec<&str> = line.split(' ').collect();
         match t.as_slice() {
-            ["re", a] => match strict_unhex(a) { Some(a) => oracle_re(&a, reply), None => Ok(()) },
+            ["re", a] => match strict_unhex(a) { Some(a) => oracle_re(&a, reply, true), None => Ok(()) },
+            ["re2", a] | ["re2w", a] => match strict_unhex(a) { Some(a) => oracle_re(&a, reply, false), None => Ok(()) },
             ["nl", f, w, a, at] => match (fam_of(f), strict_unhex(w), strict_unhex(a), strict_unhex(at)) {
                 (Some(f), Some(w), Some(a), Some(at)) => oracle_nl(f, &w, &a, &at, reply),
                 _ => Ok(()),
@@ -721,12 +995,13 @@ impl Prop for C07 {
         let t: Vec<&str> = line.split(' ').collect();
         let r = reply.split(' ').next().unwrap_or("");
         match t.as_slice() {
-            ["re", a] => {
+            [op @ ("re" | "re2" | "re2w"), a] => {
+                let four = *op == "re";
                 let kinds = match strict_unhex(a).and_then(|a| walk(&a)) {
                     Some(w) => {
                         let (mut ty, mut inv, mut unk, mut ext_short, mut long) = (false, false, false, false, false);
                         for x in &w {
-                            match classify(x) { Class::Typed => ty = true, Class::Invalid => inv = true, Class::Unknown => unk = true }
+                            match classify_w(x, four) { Class::Typed => ty = true, Class::Invalid => inv = true, Class::Unknown => unk = true }
                             if x.0 & 0x10 != 0 && x.2.len() <= 255 { ext_short = true; }
                             if x.2.len() > 255 { long = true; }
                         }
@@ -735,7 +1010,7 @@ impl Prop for C07 {
                     }
                     None => "misframed".into(),
                 };
-                format!("re:{}:{}", r, kinds)
+                format!("{}:{}:{}", op, r, kinds)
             }
             ["nl", f, ..] => format!("nl:{}:{}", f, r),
             _ => format!("other:{}", r),
